@@ -8,9 +8,12 @@
 //	    -> check=<ok|err> run=<ok:<text>|err|panic:<class>> marker=<0|1>
 //	ex.twice owner= group= mode= owner2= group2= mode2= link=
 //	    -> run1=.. marker1=.. run2=.. marker2=..       (chown/chmod between two executions)
-//	ex.dangling
-//	    -> check=err run=err marker=0                  (symlink to nothing: EvalSymlinks fails)
-//	ex.cfg   owner= group= mode= cmd=<none|sensor|fan|both> link=
+//	ex.dangling [kind=<nothing|loop|notdir|toolong|linktolong>]
+//	    -> check=err run=err marker=0                  (a path that cannot be resolved: EvalSymlinks fails with
+//	                                                    ENOENT / ELOOP / ENOTDIR / ENAMETOOLONG)
+//	ex.statrace [checks=<n> runs=<m>]
+//	    -> panics=<0|1>                                (file swapped for a symlink loop while the check / call run)
+//	ex.cfg   owner= group= mode= cmd=<none|sensor|fan|both|sensor-unused|sensor-second|fan-second> link=
 //	    -> validate=<ok|err>                           (config-file rule of validateConfig)
 //	ex.run   beh=<..> timeout_ms=<n> [hold_ms=<n|->]
 //	    -> res=<ok:<len>:<first 20 bytes hex>|err|panic:<class>|blocked> within=<0|1>
@@ -211,16 +214,89 @@ func exDangling(a kv) string {
 	dir := execCaseDir()
 	defer os.RemoveAll(dir)
 	path := filepath.Join(dir, "lnk")
-	if err := os.Symlink(filepath.Join(dir, "nothing"), path); err != nil {
-		panic(err)
+	switch a.str("kind", "nothing") {
+	case "loop": // symlink loop: ELOOP from EvalSymlinks and from Stat
+		if err := os.Symlink(path, path); err != nil {
+			panic(err)
+		}
+	case "notdir": // a path THROUGH a regular file: ENOTDIR
+		script, _ := exMarkerScript(dir)
+		path = filepath.Join(script, "cmd")
+	case "toolong": // a name longer than NAME_MAX: ENAMETOOLONG
+		path = filepath.Join(dir, strings.Repeat("n", 300))
+	case "linktolong": // a symlink whose target name is longer than NAME_MAX
+		if err := os.Symlink(filepath.Join(dir, strings.Repeat("n", 300)), path); err != nil {
+			panic(err)
+		}
+	default: // symlink to nothing: ENOENT
+		if err := os.Symlink(filepath.Join(dir, "nothing"), path); err != nil {
+			panic(err)
+		}
 	}
-	check := "ok"
-	if ok, err := util.CheckFilePermissionsForExecution(path); err != nil || !ok {
-		check = "err"
-	}
+	check := func() (res string) {
+		defer func() {
+			if r := recover(); r != nil {
+				res = "panic:" + panicClass(r)
+			}
+		}()
+		if ok, err := util.CheckFilePermissionsForExecution(path); err != nil || !ok {
+			return "err"
+		}
+		return "ok"
+	}()
 	run := exRunSafe(path, nil, 2*time.Second)
 	exCountMarker(false)
 	return fmt.Sprintf("check=%s run=%s marker=0", check, run)
+}
+
+// exStatRace: the executable is swapped (atomically, by rename) between a root-owned script and a symlink loop while
+// the check / the call run: os.Stat then fails with ELOOP although EvalSymlinks just succeeded (or the other way round).
+// Whatever the interleaving, every call must return; the answer is the number of calls that panicked, capped at 1.
+func exStatRace(a kv) string {
+	dir := execCaseDir()
+	defer os.RemoveAll(dir)
+	path := filepath.Join(dir, "cmd")
+	good := filepath.Join(dir, "good")
+	stop := make(chan struct{})
+	done := make(chan struct{})
+	go func() {
+		defer close(done)
+		for {
+			select {
+			case <-stop:
+				return
+			default:
+			}
+			_ = os.WriteFile(good, []byte("#!/bin/sh\necho 7\n"), 0o755)
+			_ = os.Rename(good, path)
+			tmp := filepath.Join(dir, "l")
+			_ = os.Symlink(path, tmp)
+			_ = os.Rename(tmp, path) // `cmd` now points to itself
+		}
+	}()
+	panics := 0
+	checkOnce := func() {
+		defer func() {
+			if r := recover(); r != nil {
+				panics++
+			}
+		}()
+		_, _ = util.CheckFilePermissionsForExecution(path)
+	}
+	for i := 0; i < a.int("checks", 4000); i++ {
+		checkOnce()
+	}
+	for i := 0; i < a.int("runs", 40); i++ {
+		if strings.HasPrefix(exRunSafe(path, nil, 2*time.Second), "panic") {
+			panics++
+		}
+	}
+	close(stop)
+	<-done
+	if panics > 0 {
+		panics = 1
+	}
+	return fmt.Sprintf("panics=%d", panics)
 }
 
 func exCfg(a kv) string {
@@ -241,22 +317,46 @@ func exCfg(a kv) string {
 	saved := configuration.CurrentConfig
 	defer func() { configuration.CurrentConfig = saved }()
 	kind := a.str("cmd", "none")
-	sensor := configuration.SensorConfig{ID: "s", File: &configuration.FileSensorConfig{Path: "/dev/null"}}
-	if kind == "sensor" || kind == "both" {
-		sensor = configuration.SensorConfig{ID: "s", Cmd: &configuration.CmdSensorConfig{Exec: "/bin/true"}}
+	// kinds: none | sensor | fan | both (the only sensor / fan is a command one) |
+	//   sensor-unused (a command sensor that no curve references, beside the file sensor in use) |
+	//   sensor-second / fan-second (the command entry is the second of two, the first is a file entry)
+	fileSensor := func(id string) configuration.SensorConfig {
+		return configuration.SensorConfig{ID: id, File: &configuration.FileSensorConfig{Path: "/dev/null"}}
 	}
-	fan := configuration.FanConfig{ID: "f", Curve: "c", File: &configuration.FileFanConfig{Path: "/dev/null"}}
-	if kind == "fan" || kind == "both" {
-		fan = configuration.FanConfig{ID: "f", Curve: "c", Cmd: &configuration.CmdFanConfig{
+	cmdSensor := func(id string) configuration.SensorConfig {
+		return configuration.SensorConfig{ID: id, Cmd: &configuration.CmdSensorConfig{Exec: "/bin/true"}}
+	}
+	fileFan := func(id string) configuration.FanConfig {
+		return configuration.FanConfig{ID: id, Curve: "c", File: &configuration.FileFanConfig{Path: "/dev/null"}}
+	}
+	cmdFan := func(id string) configuration.FanConfig {
+		return configuration.FanConfig{ID: id, Curve: "c", Cmd: &configuration.CmdFanConfig{
 			SetPwm: &configuration.ExecConfig{Exec: "/bin/true"},
 			GetPwm: &configuration.ExecConfig{Exec: "/bin/true"},
 		}}
 	}
+	sensorList := []configuration.SensorConfig{fileSensor("s")}
+	fanList := []configuration.FanConfig{fileFan("f")}
+	switch kind {
+	case "sensor":
+		sensorList = []configuration.SensorConfig{cmdSensor("s")}
+	case "fan":
+		fanList = []configuration.FanConfig{cmdFan("f")}
+	case "both":
+		sensorList = []configuration.SensorConfig{cmdSensor("s")}
+		fanList = []configuration.FanConfig{cmdFan("f")}
+	case "sensor-unused":
+		sensorList = []configuration.SensorConfig{fileSensor("s"), cmdSensor("unused")}
+	case "sensor-second":
+		sensorList = []configuration.SensorConfig{fileSensor("s0"), cmdSensor("s")}
+	case "fan-second":
+		fanList = []configuration.FanConfig{fileFan("f"), cmdFan("f2")}
+	}
 	configuration.CurrentConfig = configuration.Configuration{
-		Sensors: []configuration.SensorConfig{sensor},
+		Sensors: sensorList,
 		Curves: []configuration.CurveConfig{{ID: "c", Linear: &configuration.LinearCurveConfig{
 			Sensor: "s", Min: 40, Max: 80}}},
-		Fans: []configuration.FanConfig{fan},
+		Fans: fanList,
 	}
 	if err := configuration.Validate(path); err != nil {
 		return "validate=err"
@@ -410,6 +510,8 @@ func init() {
 			return exDangling(a)
 		case "ex.cfg":
 			return exCfg(a)
+		case "ex.statrace":
+			return exStatRace(a)
 		case "ex.run":
 			return exRun(a)
 		case "ex.user":
